@@ -34,6 +34,37 @@ RULES = [
 ]
 
 
+KINDS = set(os.environ.get("MUT_KINDS", "token").split(","))     # token | del | num
+
+
+def extra_candidates(path):
+    """Second family: a statement deleted (dropped state update / dropped call) and integer literals moved by one."""
+    src = open(os.path.join(REPO, path)).read().split("\n")
+    out = []
+    for i, line in enumerate(src):
+        s = line.strip()
+        if s.startswith("#[cfg(test)]"):
+            break
+        if s.startswith("//") or not s or "assert" in s or "trace!" in s or "debug!" in s or "log_data" in s:
+            continue
+        code = line.split("//")[0]
+        if "del" in KINDS:
+            # simple statements: assignments / compound assignments / method calls on self or a local, one line, ends with ';'
+            if re.match(r"^\s*(\*?self\.[\w.]+|\*?[a-z_][\w.]*)\s*(\+=|-=|\|=|&=|=)\s*[^=].*;\s*$", code) and not s.startswith("let "):
+                out.append((path, i, "del-assign", line, re.match(r"^\s*", line).group(0) + "// (deleted)"))
+            elif re.match(r"^\s*(self\.[\w.]+|[a-z_][\w.]*)\.(push|insert|remove|clear|set_[a-z_]+|unset_[a-z_]+|push_[a-z_]+|consume_[a-z_]+|[a-z_]*truncate)\(.*\);\s*$", code):
+                out.append((path, i, "del-call", line, re.match(r"^\s*", line).group(0) + "// (deleted)"))
+        if "num" in KINDS:
+            for m in re.finditer(r"(?<![\w.\[])(\d+)(?![\w.\]])", code):
+                n = int(m.group(1))
+                if n > 70000 or "fn " in code or "const " in code and "[" in code:
+                    continue
+                for rep, kind in ((n + 1, "num+1"),) + (((n - 1, "num-1"),) if n > 0 else ()):
+                    new = code[:m.start()] + str(rep) + code[m.end():] + line[len(code):]
+                    out.append((path, i, kind, line, new))
+    return out
+
+
 def candidates(path):
     src = open(os.path.join(REPO, path)).read().split("\n")
     out = []
@@ -83,12 +114,14 @@ def main():
         elif a == "--stride": stride = int(args.pop(0))
         elif a == "--list":
             for f in files:
-                for c in candidates(f):
+                for c in (candidates(f) if "token" in KINDS else []) + extra_candidates(f):
                     print(f"{c[0]}:{c[1] + 1}\t{c[2]}\t{c[3].strip()}  ->  {c[4].strip()}")
             return
     cands = []
     for f in files:
-        cands += candidates(f)
+        if "token" in KINDS:
+            cands += candidates(f)
+        cands += extra_candidates(f)
     cands = cands[offset::stride]
     if limit: cands = cands[:limit]
     out = open(os.path.join(VERIF, "work", "mutate.tsv"), "a")
